@@ -29,6 +29,7 @@ type GenOpts struct {
 	BigNums   bool
 	DictMulti bool // allow dicts with more than one key (their rendering order is a seam)
 	RichText  bool // dict keys and string bodies with backslashes, quotes, control characters, non-BMP runes
+	EdgeFloats bool // negative zero, subnormals, values beyond the integer range, shortest-form corner cases
 }
 
 func SwarmOpts(r *Rng, cfg CfgSpec) GenOpts {
@@ -372,7 +373,12 @@ func (g *ProgGen) DiceTerm() string {
 	return "2d6"
 }
 
+var edgeFloats = []string{"-0.0", "(0.0 * -1)", "(0.1 + 0.2)", "(1.0 / 3)", "(2.0 ^ 70)", "(2.0 ^ 63)", "(-(2.0 ^ 63))", "(2.0 ^ 53 + 1)", "(2.0 ^ -1074)", "(2.0 ^ 1023 * 1.9)", "(1.0 / 3000000)", "123456789012345678.0", "(-0.4 * 0)", "100000000000000000000.0", "0.000001", "0.0000001"}
+
 func (g *ProgGen) Float() string {
+	if g.o.EdgeFloats && g.r.Chance(1, 4) {
+		return Pick(g.r, edgeFloats)
+	}
 	switch g.r.Intn(4) {
 	case 0:
 		return Pick(g.r, []string{"1.5", "0.25", "2.0", ".5", "3.75"})
